@@ -166,6 +166,23 @@ fn cross_corpus() -> Vec<Vec<u8>> {
         let n = b.len().min(2000);
         v.push(b[..n].to_vec());
     }
+    // opaque blobs with a shape of their own in every message that carries one, and DER objects `30 03 TAG 01 VAL` /
+    // `30 82 00 03 TAG 01 VAL` for all 256 tags x 25 values (0..20, 7f, 80, fe, ff) inside a CertificateStatus and a Certificate: what the
+    // formatting code does with an ENUMERATED, a BOOLEAN, a context tag ... of any value
+    for b in cat::content_shapes() {
+        v.extend(cat::opaque_carriers(&b).into_iter().map(|w| w.buf));
+    }
+    for tag in 0..=255u8 {
+        for val in (0..=20u8).chain([0x7f, 0x80, 0xfe, 0xff]) {
+            let blob = if (tag ^ val) & 1 == 0 { vec![0x30, 0x03, tag, 0x01, val] } else { vec![0x30, 0x82, 0x00, 0x03, tag, 0x01, val] };
+            let c = cat::opaque_carriers(&blob);
+            v.push(c[0].buf.clone());
+            if val % 4 == tag % 4 {
+                v.push(c[5].buf.clone());
+                v.push(c[1].buf.clone());
+            }
+        }
+    }
     // the same structures with every other opaque-content pattern (zero / ff runs, DER in all its length forms, nested DER,
     // lying DER): what the formatting code makes of the content of certificates, signatures, names
     for style in vcommon::en::FILL_STYLES.iter().copied().filter(|s| *s != 0) {
